@@ -558,6 +558,26 @@ func check(prop, tier string) int {
 		}
 	}
 
+	// coverage pass (thorough tier): the quick tier's indices once more in a -cover build, to report which statements of
+	// package ion this scenario reaches at all (a reach measure for the evidence; it decides nothing)
+	var coverage map[string]string
+	if tier == "thorough" && os.Getenv("IONSIM_NO_COVER") == "" {
+		coverBin := filepath.Join(filepath.Dir(self), "ionsim-cover")
+		if _, err := os.Stat(coverBin); err == nil {
+			cdir := filepath.Join(dir, "cover")
+			covdata := filepath.Join(cdir, "data")
+			os.MkdirAll(covdata, 0755)
+			saveInfra, saveExtra, saveDeaths := infra, extra, deaths
+			spawnEnv = []string{"GOCOVERDIR=" + covdata, "IONSIM_COVER_PASS=1", "IONSIM_NO_PRISTINE=1"}
+			os.Setenv("IONSIM_INDICES", strconv.Itoa(s.Indices("quick")))
+			supervise(coverBin, cdir, W)
+			os.Unsetenv("IONSIM_INDICES")
+			spawnEnv = nil
+			infra, extra, deaths = saveInfra, saveExtra, saveDeaths // the coverage pass never decides anything
+			coverage = coverageByFile(covdata)
+		}
+	}
+
 	// merge
 	counters := map[string]int64{}
 	var viols []scenario.Violation
@@ -695,6 +715,10 @@ func check(prop, tier string) int {
 	}
 	if len(partB) > 0 {
 		cov["part_b_race_detector"] = partB
+	}
+	if coverage != nil {
+		cov["statement_coverage_of_package_ion"] = coverage
+		cov["statement_coverage_note"] = "statements of github.com/amzn/ion-go/ion executed by this scenario's quick-tier indices in a -cover build (reach measure only)"
 	}
 	ev := map[string]interface{}{
 		"property_id": prop,
@@ -849,6 +873,48 @@ func investigate(self string, s scenario.Scenario, prop, tier string, seed uint6
 	first := strings.SplitN(string(logb), "\n", 2)[0]
 	sig := clause + "/" + scenario.DeathClass(first)
 	return scenario.Violation{Property: prop, Clause: clause, Signature: sig, Detail: detail + "; first log line: " + first, Seed: seed, Index: ix, Case: b}, true
+}
+
+// coverageByFile turns a GOCOVERDIR into "covered/total statements (percent)" per source file of package ion.
+func coverageByFile(covdata string) map[string]string {
+	txt := filepath.Join(filepath.Dir(covdata), "cover.txt")
+	cmd := exec.Command("go", "tool", "covdata", "textfmt", "-i="+covdata, "-o="+txt)
+	cmd.Env = append(os.Environ(), "GOFLAGS=-mod=mod", "GOPROXY=off", "GOSUMDB=off", "GOTOOLCHAIN=local")
+	if out, err := cmd.CombinedOutput(); err != nil {
+		return map[string]string{"error": fmt.Sprintf("go tool covdata: %v: %s", err, strings.TrimSpace(string(out)))}
+	}
+	b, err := ioutil.ReadFile(txt)
+	if err != nil {
+		return map[string]string{"error": err.Error()}
+	}
+	total := map[string]int{}
+	hit := map[string]int{}
+	for _, line := range strings.Split(string(b), "\n") {
+		// github.com/amzn/ion-go/ion/bitstream.go:151.34,153.18 2 1
+		i := strings.Index(line, ":")
+		f := strings.Fields(line)
+		if i < 0 || len(f) != 3 || !strings.Contains(line, "/ion-go/ion/") {
+			continue
+		}
+		file := filepath.Base(line[:i])
+		n, _ := strconv.Atoi(f[1])
+		cnt, _ := strconv.Atoi(f[2])
+		total[file] += n
+		if cnt > 0 {
+			hit[file] += n
+		}
+	}
+	out := map[string]string{}
+	allT, allH := 0, 0
+	for f, t := range total {
+		out[f] = fmt.Sprintf("%d/%d (%.1f%%)", hit[f], t, 100*float64(hit[f])/float64(t))
+		allT += t
+		allH += hit[f]
+	}
+	if allT > 0 {
+		out["TOTAL"] = fmt.Sprintf("%d/%d (%.1f%%)", allH, allT, 100*float64(allH)/float64(allT))
+	}
+	return out
 }
 
 // ---------------------------------------------------------------------------------------------------------
